@@ -243,6 +243,62 @@ func seqPush(res *worker.Result, k *kase, tr truth, rng *rand.Rand) {
 	}
 	defer t.cleanup()
 
+	// file store, named file: the working directory may already hold a file at the
+	// name's path (left by an earlier store session); a fresh store is opened on it
+	var name string
+	planted := "none"
+	var plantedBytes []byte
+	if k.Store == "file-named" {
+		name = t.name()
+		ref := len(k.Base)
+		if tr.PrefixOK {
+			ref = int(k.Size)
+		}
+		cls := []string{"none", "longer", "longer", "shorter", "equal", "empty"}[rng.IntN(6)]
+		if cls == "shorter" && ref < 2 {
+			cls = "longer"
+		}
+		if cls == "empty" && ref == 0 {
+			cls = "longer"
+		}
+		switch cls {
+		case "longer":
+			extra := 1
+			if rng.IntN(2) == 0 {
+				extra = 1 + rng.IntN(5000)
+			}
+			plantedBytes = randBytes(rng, ref+extra)
+		case "shorter":
+			plantedBytes = randBytes(rng, 1+rng.IntN(ref-1))
+		case "equal":
+			plantedBytes = randBytes(rng, ref)
+		case "empty":
+			plantedBytes = []byte{}
+		}
+		if cls != "none" {
+			path := filepath.Join(t.fileDir, filepath.FromSlash(name))
+			if err := os.MkdirAll(filepath.Dir(path), 0o755); err != nil {
+				res.Violate("harness:plant", err.Error(), nil)
+				return
+			}
+			if err := os.WriteFile(path, plantedBytes, 0o644); err != nil {
+				res.Violate("harness:plant", err.Error(), nil)
+				return
+			}
+			s2, err := file.New(t.fileDir)
+			if err != nil {
+				res.Violate("harness:new-store", err.Error(), nil)
+				return
+			}
+			defer s2.Close()
+			t.st = s2
+		}
+		planted = cls
+		res.Key += "|pre-existing=" + planted
+		res.Observe("file_preexisting_classes", planted)
+		res.Count("file_preexisting_"+planted, 1)
+	}
+
 	// an unrelated blob first, so that "unchanged" is about a used store
 	if rng.IntN(2) == 0 {
 		pre := append([]byte("verif-c05-pre:"), randBytes(rng, 16)...)
@@ -257,9 +313,7 @@ func seqPush(res *worker.Result, k *kase, tr truth, rng *rand.Rand) {
 	}
 
 	d := k.desc()
-	var name string
 	if k.Store == "file-named" {
-		name = t.name()
 		d.Annotations = map[string]string{ocispec.AnnotationTitle: name}
 	}
 	before := listing(t.blobsDir)
@@ -278,7 +332,15 @@ func seqPush(res *worker.Result, k *kase, tr truth, rng *rand.Rand) {
 		vp = look(t.st, plain(d))
 	}
 	w := func() map[string]any {
-		return k.witness(map[string]any{"push_err": errStr(pushErr), "view": v, "view_plain_descriptor": vp, "blobs_diff": listingDiff(before, after)})
+		m := map[string]any{"push_err": errStr(pushErr), "view": v, "view_plain_descriptor": vp, "blobs_diff": listingDiff(before, after)}
+		if k.Store == "file-named" {
+			m["file_name"] = name
+			m["pre_existing_file"] = planted
+			if plantedBytes != nil {
+				m["pre_existing_len"] = len(plantedBytes)
+			}
+		}
+		return k.witness(m)
 	}
 	overLimit := k.Limit >= 0 && k.Size > k.Limit
 	res.Count("pushes", 1)
@@ -297,12 +359,23 @@ func seqPush(res *worker.Result, k *kase, tr truth, rng *rand.Rand) {
 	}
 	acceptedOK := func(want []byte) bool {
 		if !v.Exists || !v.Fetched || v.ReadErr != "" || !bytes.Equal(v.Data, want) {
-			res.Violate("inconsistent-after-accepted-push:"+sfx(k), fmt.Sprintf("Push returned nil but Exists=%v Fetch ok=%v (%s%s) data equal=%v", v.Exists, v.Fetched, v.FetchErr, v.ReadErr, bytes.Equal(v.Data, want)), w())
+			res.Violate("inconsistent-after-accepted-push:"+sfx(k), fmt.Sprintf("Push returned nil but Exists=%v Fetch ok=%v (%s%s) fetched %d bytes, want %d, equal=%v", v.Exists, v.Fetched, v.FetchErr, v.ReadErr, len(v.Data), len(want), bytes.Equal(v.Data, want)), w())
 			return false
 		}
 		if got, err := content.FetchAll(ctx, t.st, d); err != nil || !bytes.Equal(got, want) {
 			res.Violate("inconsistent-after-accepted-push:"+sfx(k), fmt.Sprintf("Push returned nil but FetchAll gives err=%v equal=%v", err, bytes.Equal(got, want)), w())
 			return false
+		}
+		if d.Annotations != nil && vp.visible() {
+			// the same content asked for by the plain descriptor
+			if !vp.Fetched || vp.ReadErr != "" || !bytes.Equal(vp.Data, want) {
+				res.Violate("inconsistent-after-accepted-push:"+sfx(k)+":plain-descriptor", fmt.Sprintf("Push returned nil but the plain descriptor gives Fetch ok=%v (%s%s) %d bytes, equal=%v", vp.Fetched, vp.FetchErr, vp.ReadErr, len(vp.Data), bytes.Equal(vp.Data, want)), w())
+				return false
+			}
+			if got, err := content.FetchAll(ctx, t.st, plain(d)); err != nil || !bytes.Equal(got, want) {
+				res.Violate("inconsistent-after-accepted-push:"+sfx(k)+":plain-descriptor", fmt.Sprintf("Push returned nil but FetchAll by the plain descriptor gives err=%v equal=%v", err, bytes.Equal(got, want)), w())
+				return false
+			}
 		}
 		return true
 	}
